@@ -1,14 +1,20 @@
 #!/bin/bash
-# usage: tools/with_patch.sh <patch.diff> <command...>
-# Applies a patch to /repo under an exclusive lock (all ./check runs take the same lock shared), runs the command,
-# and restores /repo's working tree whatever happens. Exit status = that of the command.
+# usage: tools/with_patch.sh <patch.diff> <command...>      e.g.  tools/with_patch.sh m.diff ./check C15 quick
+# Runs the command against a MUTATED COPY of the library, without touching /repo or /verif:
+#   scratch dir /tmp/verif-mut.XXXXXX/{repo = git worktree of /repo HEAD + patch, verif = copy of /verif without .build}
+# The command runs with cwd = the copied /verif and VERIF_REPO pointing at the patched tree, so every check builds the
+# mutated library into its own .build (full build: 1-3 min per flavour). Several mutation runs may go on in parallel.
+# Replay files of the run are copied to /verif/.build/work/mut-replays/. Exit status = that of the command.
 P=$(readlink -f "$1"); shift
 ROOT=$(cd "$(dirname "$0")/.." && pwd)
-mkdir -p "$ROOT/.build"
-exec 7>"$ROOT/.build/.lock.repo-mutation"
-flock 7
-if ! git -C /repo diff --quiet; then echo "with_patch: /repo working tree is dirty, refusing" >&2; exit 99; fi
-git -C /repo apply "$P" || { echo "with_patch: patch does not apply" >&2; exit 98; }
-VERIF_HAVE_REPO_LOCK=1 "$@"; rc=$?
-git -C /repo checkout -- . ; git -C /repo clean -fdq -- src include capi 2>/dev/null
+W=$(mktemp -d /tmp/verif-mut.XXXXXX)
+cleanup() { git -C /repo worktree remove --force "$W/repo" >/dev/null 2>&1; rm -rf "$W"; git -C /repo worktree prune >/dev/null 2>&1; }
+trap cleanup EXIT
+git -C /repo worktree add -q --detach "$W/repo" HEAD || { echo "with_patch: cannot create worktree" >&2; exit 97; }
+git -C "$W/repo" apply "$P" || { echo "with_patch: patch does not apply to /repo HEAD" >&2; exit 98; }
+mkdir -p "$W/verif"
+rsync -a --exclude .build --exclude replays --exclude .git "$ROOT/" "$W/verif/"
+cd "$W/verif"
+VERIF_REPO="$W/repo" VERIF_HAVE_REPO_LOCK=1 "$@"; rc=$?
+mkdir -p "$ROOT/.build/work/mut-replays"; cp -r "$W/verif/replays/." "$ROOT/.build/work/mut-replays/" 2>/dev/null
 exit $rc
